@@ -47,7 +47,7 @@ DOCUMENTED_SHORTHAND_KEYS = [
     "allocator_include", "allocator_type", "allocator_is_default_constructible", "ctor_convention",
 ]  # fmt: skip
 SCALARS = [".h", ".hpp", "x", 0, 1, 2, True, False, "little", "any", "c++14", "c++17", "c++17-pmr", "c++20", "", "true", None, None]
-TOP_KEYS = ["extension", "options", "named_types", "custom_key", "custom_map", "limit_empty_lines", "trim_trailing_whitespace", "named_values", "defaults", "stropping_suffix", "stropping_prefix", "namespace_file_stem", "support_namespace", "enable_stropping", "use_standard_types"]
+TOP_KEYS = ["reserved_identifiers", "extension", "options", "named_types", "custom_key", "custom_map", "limit_empty_lines", "trim_trailing_whitespace", "named_values", "defaults", "stropping_suffix", "stropping_prefix", "namespace_file_stem", "support_namespace", "enable_stropping", "use_standard_types"]
 OPT_KEYS = ["target_endianness", "enable_serialization_asserts", "omit_float_serialization_support", "std", "custom_opt", "nested_opt", "cast_format", "enable_override_variable_array_capacity"]
 SUB_KEYS = ["a", "b", "boolean", "byte", "deep"]
 
@@ -162,6 +162,8 @@ def _rand_section_doc(r: Rng, allow_default: bool) -> dict:
             doc[key] = {r.choice(SUB_KEYS): _rand_value(r, 1, allow_default) for _ in range(r.between(1, 2))}
         elif key == "defaults":
             doc[key] = {r.choice(["c++17-pmr", "c++20", "mine"]): {r.choice(OPT_KEYS): r.choice(SCALARS)}}
+        elif key == "reserved_identifiers":
+            doc[key] = r.sample(["value", "data", "count", "flags", "velocity", "x", "self_", "zebra"], r.between(0, 4))  # (a list: replaced as a whole)
         else:
             doc[key] = _rand_value(r, 0, allow_default)
     return doc
@@ -692,6 +694,15 @@ def run_case(case: dict, ctx: dict) -> dict:
             except Exception as ex:  # pylint: disable=broad-except
                 lctx = None
                 raised = "%s: %s" % (type(ex).__name__, ex)
+            if lctx is not None:
+                # the context is used once, as a generator would: helpers that are built lazily (token encoders, reserved word
+                # tables, option views) read the configuration only now
+                try:
+                    lctx.filter_id_for_target("value", "any")
+                    lctx.get_target_language().get_options()
+                    bump("probes", "context_used_after_create")
+                except Exception as ex:  # pylint: disable=broad-except
+                    bump("ops", "use-after-create-raised:" + type(ex).__name__)
             evaluations += 1
             trace.append("create(b%d)%s" % (b, "!" if raised else ""))
             bump("ops", "create")
